@@ -261,6 +261,7 @@ type PXPath struct {
 type PXConfig struct {
 	MaxDepth      int
 	MaxVisits     int
+	NoRetry       bool // do not repeat the enumeration with a larger iteration bound
 	MaxPaths      int
 	LocalWrites   bool                       // writes into path-local buffers are (also) reported as write events
 	Bounds        bool                       // index and slice expressions are reported as events (P-BOUNDS)
@@ -468,6 +469,11 @@ type pxRun struct {
 	trunc   bool
 	frameID int
 	steps   int
+	// coverage of exits: the functions executed (root and inlined), the return / panic instructions
+	// some path reached, and whether a path was dropped at the iteration bound
+	entered map[*ssa.Function]bool
+	exits   map[ssa.Instruction]bool
+	cut     bool
 }
 
 // Paths enumerates the feasible paths of fn.
@@ -475,7 +481,44 @@ type pxRun struct {
 // initialiser (pathx_globals.go); set by Paths.
 var pxGlobalConst func(name string) *T
 
+// Paths enumerates the paths of fn under cfg. Loops are unrolled up to the iteration bound; paths that
+// need more iterations are dropped. If that left an exit of an executed function unreached — a return
+// that only a longer run of the loop gets to (`if len(x) < 3 { … }; for … { … }; return raw`) — the
+// enumeration is repeated once with a larger bound and the richer result is kept.
 func (c *Ctx) Paths(fn *ssa.Function, cfg PXConfig) ([]*PXPath, bool) {
+	paths, trunc, r := c.paths1(fn, cfg)
+	if trunc || !r.cut || cfg.NoRetry {
+		return paths, trunc
+	}
+	miss := r.unreachedExits()
+	if miss == 0 {
+		return paths, trunc
+	}
+	cfg2 := cfg
+	cfg2.MaxVisits = r.cfg.MaxVisits + 2
+	paths2, trunc2, r2 := c.paths1(fn, cfg2)
+	if !trunc2 && r2.unreachedExits() < miss {
+		return paths2, trunc2
+	}
+	return paths, trunc
+}
+
+func (r *pxRun) unreachedExits() int {
+	n := 0
+	for f := range r.entered {
+		for _, b := range f.Blocks {
+			if len(b.Instrs) == 0 {
+				continue
+			}
+			if ret, ok := b.Instrs[len(b.Instrs)-1].(*ssa.Return); ok && !r.exits[ret] {
+				n++
+			}
+		}
+	}
+	return n
+}
+
+func (c *Ctx) paths1(fn *ssa.Function, cfg PXConfig) ([]*PXPath, bool, *pxRun) {
 	pxGlobalConst = c.globalConst
 	if cfg.MaxDepth == 0 {
 		cfg.MaxDepth = 3
@@ -486,7 +529,7 @@ func (c *Ctx) Paths(fn *ssa.Function, cfg PXConfig) ([]*PXPath, bool) {
 	if cfg.MaxPaths == 0 {
 		cfg.MaxPaths = 20000
 	}
-	r := &pxRun{c: c, cfg: cfg}
+	r := &pxRun{c: c, cfg: cfg, entered: map[*ssa.Function]bool{fn: true}, exits: map[ssa.Instruction]bool{}}
 	inst, objs := 0, 0
 	st := &pxState{facts: Facts{}, mem: map[string]*T{}, heap: map[string]*T{}, visits: map[string]int{}, inst: &inst, objs: &objs, terms: map[string]*T{}}
 	for _, l := range cfg.Assume {
@@ -512,7 +555,7 @@ func (c *Ctx) Paths(fn *ssa.Function, cfg PXConfig) ([]*PXPath, bool) {
 	r.block(st, fr, fn.Blocks[0], nil, func(st *pxState, _ *pxFrame, res []*T, end string) {
 		r.paths = append(r.paths, &PXPath{Facts: st.facts, Mem: st.mem, Terms: st.terms, Order: st.order, Events: st.events, Ret: res, End: end, Trace: st.trace})
 	})
-	return r.paths, r.trunc
+	return r.paths, r.trunc, r
 }
 
 func (r *pxRun) over() bool {
@@ -541,6 +584,7 @@ func (r *pxRun) block(st *pxState, fr *pxFrame, b, pred *ssa.BasicBlock, done fu
 			}
 		}
 		if st.visits[key] >= r.cfg.MaxVisits+bonus {
+			r.cut = true
 			return
 		}
 	}
@@ -597,6 +641,7 @@ func (r *pxRun) instrs(st *pxState, fr *pxFrame, b *ssa.BasicBlock, from int, do
 			for _, v := range x.Results {
 				res = append(res, r.val(st, fr, v))
 			}
+			r.exits[in] = true
 			done(st, fr, res, "return")
 			return
 		case *ssa.Panic:
@@ -1254,6 +1299,19 @@ func (r *pxRun) eval(st *pxState, fr *pxFrame, v ssa.Value) *T {
 		if types.IsInterface(x.AssertedType) {
 			// an assertion to another interface type yields the same value (w.(io.StringWriter) is w)
 			val = a
+		} else if a.Typ != nil && !types.IsInterface(a.Typ) && a.Op != "const" {
+			// the operand is a value of known concrete type boxed into an interface (a receiver
+			// handed to a helper that takes Code): the test is decided by that type
+			same := types.Identical(a.Typ, x.AssertedType)
+			if same {
+				val = a
+			}
+			if x.CommaOk {
+				return &T{Op: "tuple", A: []*T{val, cBool(same)}, Typ: x.Type()}
+			}
+			if same {
+				return val
+			}
 		}
 		if x.CommaOk {
 			return &T{Op: "tuple", A: []*T{val, {Op: "is", A: []*T{a}, Aux: tn, Typ: types.Typ[types.Bool]}}, Typ: x.Type()}
@@ -2056,6 +2114,18 @@ func (r *pxRun) call(st *pxState, fr *pxFrame, x *ssa.Call, k func(*pxState, *px
 	}
 	if !inModule {
 		// external
+		// (*sync.Once).Do(f): what f does, every time — the initialisers accepted by W-ONCE are
+		// deterministic and idempotent, so "has run" and "runs now" leave the same state
+		if name == "(*sync.Once).Do" && len(args) == 2 {
+			if fv := args[1]; (fv.Op == "closure" || fv.Op == "func") && fv.Fn != nil && fv.Fn.Blocks != nil && r.c.inModule(fv.Fn) && fr.depth < r.cfg.MaxDepth+1 {
+				return r.inlineCall(st, fr, x, fv.Fn, fv.Bind, nil, resTyp, k)
+			}
+		}
+		// locks do not change what sequential code computes (their discipline is W-LOCKS' business)
+		switch name {
+		case "(*sync.Mutex).Lock", "(*sync.Mutex).Unlock", "(*sync.RWMutex).Lock", "(*sync.RWMutex).Unlock", "(*sync.RWMutex).RLock", "(*sync.RWMutex).RUnlock":
+			return bind(&T{Op: "tuple", Typ: resTyp})
+		}
 		// reflect.TypeOf(x) where the path knows the dynamic type of x (from a type test, or as the
 		// case the rule assumed): that type; where it knows x to be none of the types it was tested
 		// for: a type that equals none of them
@@ -2198,6 +2268,7 @@ func (r *pxRun) inlineCall(st *pxState, fr *pxFrame, x *ssa.Call, callee *ssa.Fu
 		}
 	}
 	r.frameID++
+	r.entered[callee] = true
 	nf := &pxFrame{id: r.frameID, fn: callee, env: map[ssa.Value]*T{}, args: args, bind: cbind, parent: fr, depth: fr.depth + 1}
 	// the caller's frame may be forked inside the callee: each return resumes in the copy that
 	// belongs to its own fork (the callee frame's parent)
